@@ -16,7 +16,7 @@ PROPERTY = "C11"
 LEVEL = "model_checking"
 ASSUMPTIONS = ["DC11: __* meta types and the order of types / directives / possibleTypes are not compared",
                "DC15: descriptions are not compared", "default values are compared after parsing them back as GraphQL values"]
-BUDGET_S = {"quick": 150, "thorough": 3000}
+BUDGET_S = {"quick": 600, "thorough": 3000}
 DEPTH = {"quick": 1, "thorough": 2}
 
 MINI_SDL = "type Query { a: Int }"
